@@ -139,6 +139,15 @@ CHECKS["C08"] = dict(
          "per variant, and JSON request bodies decoded into params.Body with the error returned.",
     note=TRUST + S3NOTE, technique="static analysis: AST decompilation of generated decoders + table comparison with spec oracle", design="§4 C08")
 
+CHECKS["C18"] = dict(
+    text="Relational check on pairs of generated programs: for every corpus/fixture spec with references the tool derives the inline form (kin-openapi's resolved tree, references cleared, unused "
+         "components dropped), instantiates both from the current templates and requires equality of name-erased wire-level tables: route leaves with security credential sets, parameter rows "
+         "(name, required, array, converter constants, Go base type), path patterns, response rows (Content-Type, header keys/optional/formatters, body kind) and JSON written/accepted "
+         "signatures at every body site (allOf flattened). Both forms must also be accepted/compile alike. Table-level abstraction of 'behaviour on the wire'; value formatting below the tables "
+         "is not decided; hoist rewrites are not generated.",
+    note=TRUST + S3NOTE + " Specs using x-goag-go-type are skipped (hand-written helper types are tied to component names).",
+    technique="static analysis: pairwise comparison of decompiled wire tables of two instantiated programs (ref form vs tool-derived inline form)", design="§4 C18")
+
 NA_REASON = {}
 DEFAULT_NA = "not claimed yet: static checker for this property is still under construction (design in DESIGN.md §4)"
 
